@@ -81,6 +81,10 @@ def gen_case(rng: random.Random, tier: str, bias: str = ''):
                                  fail=rng.random() < 0.15,
                                  timeout=rng.choice([0.5, 1.0, 2.0]) if abandon else FOREVER,
                                  bp=rng.random() < (0.3 if bias != 'capacity' else 0.15)))
+                # (AsyncServer only) the calling task is cancelled after this many loop iterations: while it waits
+                # for room, while it waits for the result, or after it got it
+                if not abandon and rng.random() < (0.3 if bias == 'abandon' else 0.12):
+                    reqs[-1]['cancel'] = rng.choice([0, 1, 2, 3, 5, 8, 13])
                 r += 1
             callers.append(dict(kind='call', reqs=reqs))
         else:
@@ -168,17 +172,27 @@ def run_case(case):
                     out = ('timeout',)
                 except WorkErr as e:
                     out = ('err', e.r)
+                except asyncio.CancelledError:
+                    out = ('cancelled',)
                 except BaseException as e:  # noqa
                     out = ('other', repr(e))
                 outcomes[r] = (out, loop.time() - t0, timeout, bp)
-                log(('outcome', r) + out)
+                if out != ('cancelled',):
+                    log(('outcome', r) + out)
 
             async def caller(spec):
                 if spec['kind'] == 'call':
                     for q in spec['reqs']:
                         for _ in range(q['delay']):
                             await asyncio.sleep(0)
-                        await do_call(q['r'], q['dur'], q['fail'], q['timeout'], q['bp'])
+                        if q.get('cancel') is not None:
+                            t = asyncio.ensure_future(do_call(q['r'], q['dur'], q['fail'], q['timeout'], q['bp']))
+                            for _ in range(q['cancel']):
+                                await asyncio.sleep(0)
+                            t.cancel()
+                            await asyncio.gather(t, return_exceptions=True)
+                        else:
+                            await do_call(q['r'], q['dur'], q['fail'], q['timeout'], q['bp'])
                 else:
                     items = spec['items']
 
@@ -390,12 +404,16 @@ def run_case(case):
     for c in case['callers']:
         for q in c.get('reqs', []):
             spec_by_r[q['r']] = q
+    cancelled_plan = {q['r'] for sp in case['callers'] if sp['kind'] == 'call' for q in sp['reqs']
+                      if q.get('cancel') is not None and case['kind'] == 'async'}
     for r, (out, el, timeout, bp) in outcomes.items():
         q = spec_by_r.get(r, dict(fail=False, timeout=FOREVER, bp=False))
         want = ('err', r) if q['fail'] else ('ok', r)
         if out[0] in ('ok', 'err'):
             if out != want:
                 mon.append(dict(prop='C02', rule='crosstalk', detail=f'request {r} got {out}, its own outcome is {want}'))
+        elif out[0] == 'cancelled' and r in cancelled_plan:
+            pass        # the caller gave up on its own; what matters is what it leaves behind (slots, server, others)
         elif out[0] == 'timeout':
             if timeout >= FOREVER:
                 mon.append(dict(prop='C07', rule='unanswered', detail=f'request {r} with an unbounded deadline got TimeoutError'))
@@ -457,6 +475,8 @@ def model_lines(cid, case, res):
     n = case['nreq'] + case['followups']
     if n > MODEL_MAX_REQUESTS:
         return []
+    if case['kind'] == 'async' and any(q.get('cancel') is not None for sp in case['callers'] if sp['kind'] == 'call' for q in sp['reqs']):
+        return []        # cancelled calling tasks: monitors only (the model's callers leave by outcome or deadline)
     bps, timed = [], []
     for e in res['events']:
         if e[0] == 'call':
